@@ -21,13 +21,15 @@ def answerJ : Spec.Answer → Json
   | .perModel per => Json.mkObj [("models", .arr (per.map itemsJ).toArray)]
 
 /-- a history judged by the reference model; after a step the property does not speak about, the rest is `outside` -/
-def runHist (db : Db) : List Tbl.Op → List Json
+def runHist (db : Db) : List HistItem → List Json
   | [] => []
-  | op :: rest =>
+  | .modify op :: rest =>
     match Spec.step db op with
     | .ok db' => Json.mkObj [("out", "ok"), ("db", dbJ db')] :: runHist db' rest
     | .reject => Json.mkObj [("out", "reject"), ("db", dbJ db)] :: runHist db rest
-    | .outside => (op :: rest).map (fun _ => Json.mkObj [("out", "outside")])
+    | .outside => (HistItem.modify op :: rest).map (fun _ => Json.mkObj [("out", "outside")])
+  | .query columns tn kw :: rest =>
+    Json.mkObj [("out", "answer"), ("answer", answerJ (Spec.getOn piece limit db columns tn kw)), ("db", dbJ db)] :: runHist db rest
 
 /-- the reference tables of a family of objects: every object evolves by the reference model of C04 on its own
     tables; a derived object starts with the round-tripped snapshot of the selected atoms -/
@@ -123,12 +125,25 @@ def op (name : String) (j : Json) : Except String (Option Json) := do
     pure (some (.arr ((Spec.getAll piece limit db (← strOf j "columns") (← kwsOfJson j "kw")).map answerJ).toArray))
   | "hist" =>
     let db ← dbOfJson (← j.getObjVal? "db")
-    let ops ← (← jArr j "ops").toList.mapM opOfJson
+    let ops ← (← jArr j "ops").toList.mapM histItemOfJson
     pure (some (.arr (runHist db ops).toArray))
   | "intersection" =>
     let db ← dbOfJson (← j.getObjVal? "db")
     let m ← (← jArr j "match").toList.mapM (fun x => do let s ← asStr x; pure s.toList)
     pure (some (specIntersection db (← strOf j "column") m))
+  | "intersect" =>
+    let db ← dbOfJson (← j.getObjVal? "db")
+    let mn ← (← jArr j "match").toList.mapM (fun x => do let s ← asStr x; pure s.toList)
+    pure (some (match mn.mapM specMatchCol with
+      | none => "REJECTED"
+      | some m =>
+        let tables := db.tabs.map (·.rows)
+        if !db.extra.isEmpty || !tables.all (fun T => decide ((T.map (Spec.keyOf m)).Nodup)) then "OUTSIDE"
+        else
+          let tuples := Spec.intersection m tables
+          if tuples.isEmpty then "EMPTY"
+          else dbJ { tabs := db.tabs.zipIdx.map (fun ti =>
+            ({ name := ti.1.name, rows := roundtripRepresentable (tuples.map (fun tup => tup.getD ti.2 default)) } : Tab)) }))
   | "world" =>
     let objs ← (← jArr j "objs").toList.mapM objOfJson
     let ops ← (← jArr j "ops").toList.mapM wopOfJson
